@@ -328,6 +328,46 @@ pub fn exec2<'a, I: Iterator<Item = &'a str>>(op: &str, it: &mut I) -> String {
             }
             s(&pi!(i, n))
         }
+        "errmsg" => match it.next() {
+            Some("term") => {
+                use lambda_calculus::term::TermError;
+                let e = match it.next() {
+                    Some("NotVar") => TermError::NotVar,
+                    Some("NotAbs") => TermError::NotAbs,
+                    Some("NotApp") => TermError::NotApp,
+                    _ => bad!(),
+                };
+                // Display, and std::error::Error::source is None
+                if std::error::Error::source(&e).is_some() {
+                    return "source-not-none".into();
+                }
+                show_cps(&e.to_string())
+            }
+            Some("parse") => {
+                let e = match it.next() {
+                    Some("IC") => {
+                        let i = num!();
+                        let c = match it.next().and_then(|x| x.parse::<u32>().ok()).and_then(char::from_u32) {
+                            Some(c) => c,
+                            None => bad!(),
+                        };
+                        ParseError::InvalidCharacter((i, c))
+                    }
+                    Some("IE") => ParseError::InvalidExpression,
+                    Some("EE") => ParseError::EmptyExpression,
+                    _ => bad!(),
+                };
+                if std::error::Error::source(&e).is_some() {
+                    return "source-not-none".into();
+                }
+                show_cps(&e.to_string())
+            }
+            _ => bad!(),
+        },
+        "ordname" => match it.next().and_then(crate::codec::order_of) {
+            Some(o) => show_cps(&o.to_string()),
+            None => bad!(),
+        },
         _ => "bad-op".into(),
     }
 }
